@@ -117,4 +117,105 @@ def addCleanTask (k : Nat) : Call := .setTimer (some k) second second
 def cacheCb : Cb (List Nat) := fun present k _ =>
   (present.filter (· ≠ k), [.removeTimer (some k)])
 
+/-! ### core/collection/cache.go with the LRU limit (`WithLimit`), Get / Take and the values
+
+`data` and the key list of `keyLru` (front = most recently used).  Every function returns the new cache and the
+calls it issues on the wheel, in program order; each call is synchronous (the public methods of the wheel return
+when the run loop has received the request), so the next one is issued only after the previous one was received. -/
+
+structure CacheL where
+  limit  : Nat                 -- 0: `emptyLru` (no `WithLimit`, or `WithLimit(limit)` with `limit <= 0`)
+  expire : Int
+  data   : List (Nat × Nat)
+  lru    : List Nat
+  deriving Repr, DecidableEq
+
+/-- `NewCache(expire, WithLimit(limit))`: `if limit > 0 { cache.lruCache = newKeyLru(limit, cache.onEvict) }`. -/
+def CacheL.init (limit expire : Int) : CacheL := ⟨if limit > 0 then limit.toNat else 0, expire, [], []⟩
+
+def upsert (d : List (Nat × Nat)) (k v : Nat) : List (Nat × Nat) :=
+  if d.any (·.1 = k) then d.map (fun x => if x.1 = k then (k, v) else x) else d ++ [(k, v)]
+
+/-- `onEvict(key)`: `delete(c.data, key); c.timingWheel.RemoveTimer(key)`. -/
+def CacheL.onEvict (c : CacheL) (k : Nat) : CacheL × List Call :=
+  ({ c with data := c.data.filter (·.1 ≠ k) }, [.removeTimer (some k)])
+
+/-- `lruCache.add(key)`: known key → to the front; new key → pushed to the front, and if the list is now longer
+than `limit` its last element is evicted (`removeOldest` → `removeElement` → `onEvict`). -/
+def CacheL.lruAdd (c : CacheL) (k : Nat) : CacheL × List Call :=
+  if c.limit = 0 then (c, [])
+  else if c.lru.contains k then ({ c with lru := k :: c.lru.erase k }, [])
+  else if (k :: c.lru).length > c.limit then
+    ({ c with lru := (k :: c.lru).dropLast }).onEvict ((k :: c.lru).getLast (List.cons_ne_nil _ _))
+  else ({ c with lru := k :: c.lru }, [])
+
+/-- `lruCache.remove(key)`: a listed key is unlinked and `onEvict` runs for it. -/
+def CacheL.lruRemove (c : CacheL) (k : Nat) : CacheL × List Call :=
+  if c.limit ≠ 0 ∧ c.lru.contains k then ({ c with lru := c.lru.erase k }).onEvict k else (c, [])
+
+/-- `SetWithExpire`: store, `lruCache.add` (may evict another key: its RemoveTimer comes first), then SetTimer. -/
+def CacheL.setWithExpire (c : CacheL) (k v : Nat) (e : Int) : CacheL × List Call :=
+  ((({ c with data := upsert c.data k v }).lruAdd k).1,
+   (({ c with data := upsert c.data k v }).lruAdd k).2 ++ [.setTimer (some k) v e])
+
+def CacheL.set (c : CacheL) (k v : Nat) : CacheL × List Call := c.setWithExpire k v c.expire
+
+/-- `Del`: delete, `lruCache.remove` (with a limit: `onEvict` issues a first RemoveTimer), then RemoveTimer. -/
+def CacheL.del (c : CacheL) (k : Nat) : CacheL × List Call :=
+  ((({ c with data := c.data.filter (·.1 ≠ k) }).lruRemove k).1,
+   (({ c with data := c.data.filter (·.1 ≠ k) }).lruRemove k).2 ++ [.removeTimer (some k)])
+
+def CacheL.lookup (c : CacheL) (k : Nat) : Option Nat := (c.data.find? (·.1 = k)).map (·.2)
+
+/-- `doGet` (Get, and the two look-ups of Take): a hit moves the key to the front of the LRU list. -/
+def CacheL.doGet (c : CacheL) (k : Nat) : CacheL × List Call × Option Nat :=
+  match c.lookup k with
+  | some v => ((c.lruAdd k).1, (c.lruAdd k).2, some v)
+  | none => (c, [], none)
+
+/-- outcome kinds of Take's `fetch`: a value; an error (any non-nil error value, a typed nil included); no
+return at all (panic with an error or with another value, runtime.Goexit). -/
+inductive Fetch where
+  | ok | err | noReturn
+  deriving Repr, DecidableEq
+
+/-- `Take`: hit → `doGet`; miss → `fetch`, and only a fetched value is stored (`c.Set`). -/
+def CacheL.take (c : CacheL) (k v : Nat) (f : Fetch) : CacheL × List Call × Option Nat :=
+  match c.lookup k with
+  | some _ => c.doGet k
+  | none => match f with
+    | .ok => ((c.set k v).1, (c.set k v).2, some v)
+    | _ => (c, [], none)
+
+/-- the expiry callback: `cache.Del(key)`. -/
+def cacheLCb : Cb CacheL := fun c k _ => c.del k
+
+/-- operations of a client of the Cache. -/
+inductive COp where
+  | set (k v : Nat) (e : Int)
+  | put (k v : Nat)
+  | del (k : Nat)
+  | get (k : Nat)
+  | take (k v : Nat) (f : Fetch)
+  | tick
+  deriving Repr, DecidableEq
+
+/-- the cache after the operation's own statements and the calls it issues on the wheel (a tick is the ticker's). -/
+def CacheL.client (c : CacheL) : COp → CacheL × List Call
+  | .set k v e => c.setWithExpire k v e
+  | .put k v => c.set k v
+  | .del k => c.del k
+  | .get k => ((c.doGet k).1, (c.doGet k).2.1)
+  | .take k v f => ((c.take k v f).1, (c.take k v f).2.1)
+  | .tick => (c, [.tick])
+
+/-- one operation over the timer table: its calls in program order, then the expiry callbacks of everything that
+fired (fuel: the number of pending timers bounds what one tick can fire). -/
+def cacheStep (st : Spec.Api × CacheL) (op : COp) : Spec.Api × CacheL :=
+  let x := st.2.client op
+  let i := ApiG.issue Spec.step 0 st.1 x.2
+  let q := ApiG.settle Spec.step cacheLCb (st.1.inner.length + 1) i.1 x.1 i.2.1
+  (q.api, q.cb)
+
+
 end GoZero.C12
